@@ -111,6 +111,13 @@ def bounds(tier):
             "repetitions": "every pair-core atom a (b, c = the next two core atoms) x shapes %s x {equal but distinct "
                            "objects, one shared object per distinct atom and group}; cases already in the pair / triple "
                            "spaces are not repeated" % ", ".join(REPEAT_SHAPES),
+            "at_relations": "the formatted string as the value of a relationship field of Packages (%d fields), Sources (%d) or "
+                            "BuildInfo (1), read back through .relations: every atom once and every pair-core atom x "
+                            "(a|b, a,b + the repetition shapes), each under one (class, field, way of reading) of the %d "
+                            "combinations in rotation; 7 structures under every combination; ways of reading: %s; also "
+                            "checked: no warning, the neighbouring field, absent fields = [], the key set"
+                            % (len(MIXIN_FIELDS["Packages"]), len(MIXIN_FIELDS["Sources"]), len(MIXIN_COMBOS),
+                               ", ".join(MIXIN_ACCESS)),
             "core_selection": "deterministic greedy cover of all 2-way combinations of component values and all 16 "
                               "presence masks of the optional parts, then an even stride; independent of the seed"}
 
@@ -388,6 +395,8 @@ def exec_case(case):
         return exec_alias(case)
     if case.get("keys"):
         return exec_keys(case)
+    if case.get("mixin"):
+        return exec_mixin(case)
     from debian.deb822 import PkgRelation as R
     rels = build(case["rels"], share=bool(case.get("share")))
     ev = 1
@@ -428,6 +437,109 @@ def exec_case(case):
         outcome = "unclassifiable result"
     if bad:
         outcome = "VIOLATION " + outcome
+    return bad, outcome, ev
+
+
+# ------------------------------------------------------------------------------------------------
+# the same round trip observed at the paragraph classes: Packages(...).relations etc.
+
+MIXIN_FIELDS = {
+    "Packages": ["Depends", "Pre-Depends", "Recommends", "Suggests", "Breaks", "Conflicts", "Provides", "Replaces",
+                 "Enhances", "Built-Using"],
+    "Sources": ["Build-Depends", "Build-Depends-Indep", "Build-Depends-Arch", "Build-Conflicts", "Build-Conflicts-Indep",
+                "Build-Conflicts-Arch", "Binary"],
+    "BuildInfo": ["Installed-Build-Depends"],
+}
+MIXIN_ACCESS = ["subscript", "subscript-field-spelling", "get", "items", "values", "dict", "iteration", "twice",
+                "neighbour-first", "absent-first", "keys-first"]
+MIXIN_COMBOS = [(c, f, a) for c in ("Packages", "Sources", "BuildInfo") for f in range(len(MIXIN_FIELDS[c]))
+                for a in MIXIN_ACCESS]
+
+
+def mixin_access(rel, key, spelled, neighbour, absent, how):
+    """the value of `key` out of the .relations mapping `rel`, reached in one of the ways a mapping offers"""
+    if how == "subscript":
+        return rel[key]
+    if how == "subscript-field-spelling":
+        return rel[spelled]
+    if how == "get":
+        return rel.get(key)
+    if how == "items":
+        return dict(rel.items())[key]
+    if how == "values":
+        return list(rel.values())[list(rel.keys()).index(key)]
+    if how == "dict":
+        return dict(rel)[key]
+    if how == "iteration":
+        return [rel[k] for k in rel if k == key][0]
+    if how == "twice":
+        rel[key]
+        return rel[key]
+    if how == "neighbour-first":
+        rel[neighbour.lower()]
+        return rel[key]
+    if how == "absent-first":
+        rel[absent.lower()]
+        return rel[key]
+    if how == "keys-first":
+        sorted(rel.keys())
+        return rel[key]
+    raise AssertionError(how)
+
+
+def exec_mixin(case):
+    from debian import deb822
+    R = deb822.PkgRelation
+    cname, fi, how = case["mixin"]
+    fields = MIXIN_FIELDS[cname]
+    f = fields[fi]
+    neighbour = fields[(fi + 1) % len(fields)] if len(fields) > 1 else None
+    absent = fields[(fi + 2) % len(fields)] if len(fields) > 2 else None
+    if how == "neighbour-first" and neighbour is None or how == "absent-first" and absent is None:
+        how = "subscript"
+    rels = build(case["rels"])
+    ev = 1
+    try:
+        s = R.str(rels)
+    except Exception as e:
+        return [("rel/str/raises:%s" % type(e).__name__, "a string", "%s: %s" % (type(e).__name__, e))], "str raises", ev
+    text = "Package: x\n%s: %s\n" % (f, s)
+    if neighbour:
+        text += "%s: other-pkg\n" % neighbour
+    sig0 = "rel/at-%s.relations/" % cname
+    with warnings.catch_warnings(record=True) as w:
+        warnings.simplefilter("always")
+        try:
+            obj = getattr(deb822, cname)(text)
+            rel = obj.relations
+            got = mixin_access(rel, f.lower(), f, neighbour, absent, how)
+            rest = dict((k.lower(), rel[k.lower()]) for k in fields if k != f)
+            keys = sorted(rel.keys())
+        except Exception as e:
+            return ([(sig0 + "raises:%s" % type(e).__name__, rels, "%s(%r).relations, %s: %s: %s" % (
+                cname, text, how, type(e).__name__, e))], "mixin raises", ev + 1)
+    bad = []
+    ev += 4
+    if w:
+        bad.append((sig0 + "warning", "no warning for %r" % text, [str(x.message) for x in w]))
+    if got != rels:
+        bad.append((sig0 + "value", "%s(%r).relations, %s -> %r" % (cname, text, how, rels), got))
+    want_rest = dict((k.lower(), []) for k in fields if k != f)
+    if neighbour:
+        want_rest[neighbour.lower()] = [[{"name": "other-pkg", "archqual": None, "version": None, "arch": None,
+                                          "restrictions": None}]]
+    if rest != want_rest:
+        bad.append((sig0 + "other-fields", want_rest, rest))
+    if keys != sorted(k.lower() for k in fields):
+        bad.append((sig0 + "keys", sorted(k.lower() for k in fields), keys))
+    if not bad:
+        try:
+            s2 = R.str(got)
+            if s2 != s:
+                bad.append((sig0 + "restr-differs", s, s2))
+        except Exception as e:
+            bad.append((sig0 + "restr-raises:%s" % type(e).__name__, s, "%s: %s" % (type(e).__name__, e)))
+    outcome = "%s.relations read by %s: %s" % (cname, how, "VIOLATION" if bad else "equals the structure")
     return bad, outcome, ev
 
 
@@ -678,6 +790,11 @@ def units(tier, seed):
     out += [("keys-perm", i, pc) for i in firsts]
     out += [("keys-pairs", i, tc) for i in range(len(tc))]
     out += [("repeat", i, pc, tc) for i in firsts]
+    # the round trip read at Packages / Sources / BuildInfo .relations: every atom once, the repetition shapes, and a few
+    # structures under every (class, field, way of reading the mapping)
+    out += [("mixin-atoms", n, q) for n in range(RADIX[0]) for q in range(RADIX[1])]
+    out += [("mixin-repeat", i, pc) for i in firsts]
+    out += [("mixin-access", c) for c in ("Packages", "Sources", "BuildInfo")]
     return out
 
 
@@ -703,6 +820,12 @@ def unit_cost(u, tier):
         return 2 * 8 * len(u[2])
     if u[0] == "repeat":
         return 2 * len(REPEAT_SHAPES) * len(_first_indexes(u[1]))
+    if u[0] == "mixin-atoms":
+        return PER_UNIT * 2
+    if u[0] == "mixin-repeat":
+        return 2 * (len(REPEAT_SHAPES) + 2) * len(_first_indexes(u[1]))
+    if u[0] == "mixin-access":
+        return 5 * len(MIXIN_FIELDS[u[1]]) * len(MIXIN_ACCESS) * 2
     return 3 * 4 * len(u[2]) ** 2
 
 
@@ -749,6 +872,50 @@ def run_unit(u, tier, seed):
                     part.extra["single atoms"] += 1
                     if (v, a, r) in ((0, 0, 0), (5, 2, 3)):
                         part.sample(case)
+        return part
+    if u[0] == "mixin-atoms":
+        _, n, q = u
+        part.max_depth = 6
+        for v in range(RADIX[2]):
+            for a in range(RADIX[3]):
+                for r in range(RADIX[4]):
+                    node()
+                    k = ((((n * RADIX[1] + q) * RADIX[2] + v) * RADIX[3] + a) * RADIX[4] + r) * 7 + seed
+                    case = {"rels": [[atom(C, (n, q, v, a, r))]], "mixin": list(MIXIN_COMBOS[k % len(MIXIN_COMBOS)])}
+                    _do(part, case)
+                    part.extra["at .relations: single atoms"] += 1
+                    if (v, a, r) == (5, 2, 3):
+                        part.sample(case)
+        return part
+    if u[0] == "mixin-repeat":
+        _, ii, pc = u
+        pc = _core(pc)
+        part.max_depth = 20
+        for i in _first_indexes(ii):
+            abc = dict((x, atom(C, pc[(i + j) % len(pc)])) for j, x in enumerate("abc"))
+            for si, shape in enumerate(("a|b", "a,b") + REPEAT_SHAPES):
+                node()
+                k = (i * 31 + si) * 5 + seed
+                case = {"rels": letters_rels(shape, abc), "mixin": list(MIXIN_COMBOS[k % len(MIXIN_COMBOS)])}
+                _do(part, case)
+                part.extra["at .relations: pairs and repetition shapes"] += 1
+        part.sample(case)
+        return part
+    if u[0] == "mixin-access":
+        cname = u[1]
+        part.max_depth = 20
+        idx = all_indexes()
+        picks = [idx[0], idx[len(idx) // 3], idx[len(idx) // 2], idx[-1]]
+        abc = dict((x, atom(C, picks[j + 1])) for j, x in enumerate("abc"))
+        structures = [[[atom(C, ix)]] for ix in picks] + [letters_rels(sh, abc) for sh in ("a|b,c", "a,b,a", "a|a,b|c")]
+        for rels in structures:
+            for fi in range(len(MIXIN_FIELDS[cname])):
+                for how in MIXIN_ACCESS:
+                    node()
+                    case = {"rels": rels, "mixin": [cname, fi, how]}
+                    _do(part, case)
+                    part.extra["at .relations: every class x field x way of reading"] += 1
+        part.sample(case)
         return part
     if u[0] == "alias":
         _, n, q = u
